@@ -1,5 +1,259 @@
 import RosuModel.Lemmas.GradualOsu
+import RosuModel.Lemmas.GradualCatch
+import RosuModel.Lemmas.GradualMania
+
+/-!
+# C02 — gradual difficulty equals difficulty of the played prefix
+
+For every abstract skill state `S` (hence for the real strain skills): the `i`-th value a
+gradual calculator produces is the one-shot result for `passed_objects = i`, it produces exactly
+`len()` values, and the last one is the full one-shot result.  osu!standard and osu!catch are
+proved outright, osu!mania under the hypothesis the proof forces (`incGrad = incOne`), osu!taiko
+has `decide`d counter-witnesses (the statement is false of the code, see known findings).
+-/
+
 namespace Rosu.Gradual
+
 variable {S : Type}
-theorem placeholder_c02 : True := trivial
+
+def unitSkills' : Skills (List Nat) := ⟨[], fun s i => s ++ [i]⟩
+
+/-! ## osu!standard -/
+
+/-- One-shot with `take = i` (`1 ≤ i`) equals the canonical value at `min i n`. -/
+theorem osuOneShot_eq_value (sk : Skills S) (objs : List OsuObj) (i : Nat) (hi : 1 ≤ i)
+    (hn : 1 ≤ objs.length) :
+    osuOneShot sk objs i = osuValue sk objs (min i objs.length) := by
+  unfold osuOneShot osuValue
+  simp only [osuConvertCount_eq_prefix]
+  have hdl : osuDiffLen objs.length i = objs.length - 1 := by
+    unfold osuDiffLen
+    have : ¬ (objs.length = 0 ∨ i = 0) := by omega
+    rw [if_neg this]
+  rw [hdl]
+  have e1 : min (min objs.length i - 1) (objs.length - 1) = min i objs.length - 1 := by omega
+  rw [e1]
+  congr 1
+  rcases Nat.le_total i objs.length with h | h
+  · simp [Nat.min_eq_left h]
+  · rw [Nat.min_eq_right h]; exact osuPrefixCounts_ge objs i h
+
+/-- **osu!**: the first `n` calls of `next` return exactly the one-shot results for
+`passed_objects = 1, …, n`, and the `(n+1)`-th call returns `None`. -/
+theorem osu_next_eq_prefix (sk : Skills S) (objs : List OsuObj) :
+    ((osuMachine sk objs).nexts (osuNew sk objs) objs.length).1 =
+      (List.range objs.length).map (fun d => Res.some (osuOneShot sk objs (d + 1))) ∧
+    ((osuMachine sk objs).next ((osuMachine sk objs).nexts (osuNew sk objs) objs.length).2).1 = .none := by
+  obtain ⟨hv, hc⟩ := osu_nexts_spec sk objs objs.length (osuNew sk objs) 0 (osuNew_canon sk objs) (by omega)
+  refine ⟨?_, ?_⟩
+  · rw [hv]
+    apply List.map_congr_left
+    intro d hd
+    have hdlt : d < objs.length := by simpa using hd
+    simp only [Nat.zero_add]
+    rw [osuOneShot_eq_value sk objs (d + 1) (by omega) (by omega)]
+    have : min (d + 1) objs.length = d + 1 := by omega
+    rw [this]
+  · simp only [Nat.zero_add] at hc
+    rw [osuMachine_next_exhausted sk objs _ hc]
+
+/-- **osu!**: the calculator announces exactly as many values as it produces. -/
+theorem osu_len_initial (sk : Skills S) (objs : List OsuObj) :
+    (osuMachine sk objs).len (osuNew sk objs) = some objs.length := by
+  have := osuLen_spec sk objs _ 0 (osuNew_canon sk objs)
+  simpa [osuMachine] using this
+
+/-- **osu!**: the final value is the full calculation (`passed_objects` unset = any `take ≥ n`). -/
+theorem osu_last_eq_full (sk : Skills S) (objs : List OsuObj) (take : Nat)
+    (hn : 1 ≤ objs.length) (ht : objs.length ≤ take) :
+    osuOneShot sk objs take = osuOneShot sk objs objs.length := by
+  rw [osuOneShot_eq_value sk objs take (by omega) hn, osuOneShot_eq_value sk objs _ hn hn]
+  congr 1
+  omega
+
+/-! ## osu!catch -/
+
+/-- No tiny droplets are recorded after the last fruit/droplet (true of the converter: a juice
+stream always ends with its tail fruit). -/
+def CatchWellFormed (evs : List CatchEvent) : Prop :=
+  (evs.foldl catchGradualStep (⟨false, 0⟩, [])).1.tiny = 0
+
+
+theorem catchRegular_eq_prefix (evs : List CatchEvent) (take : Nat) (hwf : CatchWellFormed evs) :
+    catchRegular evs take = catchPrefixCounts (catchGradualRecs evs) take := by
+  have h := catchBuilders_fold take evs _ _ (catchBuilders_init take)
+  have hc := h.c
+  unfold CatchWellFormed at hwf
+  unfold catchRegular catchGradualRecs
+  rw [hc, hwf]
+  simp [CatchCounts.addTiny]
+
+theorem catchRecs_length (evs : List CatchEvent) : (catchGradualRecs evs).length = catchPalpable evs := by
+  have := catchGradual_length evs (⟨false, 0⟩, [])
+  simpa [catchGradualRecs] using this
+
+/-- One-shot with `take = i ≥ 1` equals the canonical gradual value at `min i P`. -/
+theorem catchOneShot_eq_value (sk : Skills S) (evs : List CatchEvent) (i : Nat)
+    (hwf : CatchWellFormed evs) :
+    catchOneShot sk evs i = catchValue sk (catchGradualRecs evs) (min i (catchGradualRecs evs).length) := by
+  unfold catchOneShot catchValue
+  rw [catchRegular_eq_prefix evs i hwf, ← catchRecs_length]
+  congr 1
+  · rcases Nat.le_total i (catchGradualRecs evs).length with h | h
+    · rw [Nat.min_eq_left h]
+    · rw [Nat.min_eq_right h]; exact catchPrefixCounts_ge _ i h
+  · congr 1; omega
+
+/-- **catch**: the first `P` calls of `next` (`P` = palpable objects) return exactly the one-shot
+results for `passed_objects = 1, …, P`; the next call returns `None`; `len()` announces `P`. -/
+theorem catch_next_eq_prefix (sk : Skills S) (evs : List CatchEvent) (hwf : CatchWellFormed evs) :
+    let recs := catchGradualRecs evs
+    let m := catchMachine sk recs (recs.length - 1)
+    (m.nexts (catchNew sk) recs.length).1 =
+      (List.range recs.length).map (fun d => Res.some (catchOneShot sk evs (d + 1))) ∧
+    (m.next (m.nexts (catchNew sk) recs.length).2).1 = .none ∧
+    m.len (catchNew sk) = some recs.length := by
+  intro recs m
+  obtain ⟨hv, hc⟩ := catch_nexts_spec sk recs recs.length (catchNew sk) 0 (catchNew_canon sk recs) (by omega)
+  refine ⟨?_, ?_, ?_⟩
+  · show ((catchMachine sk recs (recs.length - 1)).nexts (catchNew sk) recs.length).1 = _
+    rw [hv]
+    apply List.map_congr_left
+    intro d hd
+    have hdlt : d < recs.length := by simpa using hd
+    simp only [Nat.zero_add]
+    rw [catchOneShot_eq_value sk evs (d + 1) hwf]
+    have : min (d + 1) (catchGradualRecs evs).length = d + 1 := by
+      show min (d + 1) recs.length = d + 1
+      omega
+    rw [this]
+  · simp only [Nat.zero_add] at hc
+    show ((catchMachine sk recs (recs.length - 1)).next _).1 = _
+    rw [catchMachine_next_exhausted sk recs _ hc]
+  · exact catchLen_spec sk recs _ 0 (catchNew_canon sk recs)
+
+/-- **catch**: the final value is the full calculation. -/
+theorem catch_last_eq_full (sk : Skills S) (evs : List CatchEvent) (take : Nat)
+    (hwf : CatchWellFormed evs) (ht : (catchGradualRecs evs).length ≤ take) :
+    catchOneShot sk evs take = catchOneShot sk evs (catchGradualRecs evs).length := by
+  rw [catchOneShot_eq_value sk evs take hwf, catchOneShot_eq_value sk evs _ hwf]
+  congr 1
+  omega
+
+/-- Non-vacuity: a stream with tiny droplets before a droplet and a fruit is well formed. -/
+example : CatchWellFormed [.fruit, .tiny 2, .droplet, .tiny 1, .fruit] := by
+  unfold CatchWellFormed; decide
+
+/-! ## osu!mania -/
+
+/-- Hypothesis forced by the proof: the gradual path's recomputed combo increment equals the
+one-shot increment for every object. -/
+def ManiaIncAgree (objs : List ManiaObj) : Prop :=
+  ∀ o ∈ objs, (if o.isCircle then 1 else o.incGrad) = o.incOne ∧ (o.isCircle = true → o.incOne = 1)
+
+
+theorem maniaGradPrefix_eq_oneShot (objs : List ManiaObj) (k : Nat) (h : ManiaIncAgree objs) :
+    maniaGradPrefix objs k =
+      (((objs.take k).map (·.incOne)).sum, ((objs.take k).filter (fun o => !o.isCircle)).length) := by
+  unfold maniaGradPrefix
+  suffices hs : ∀ (l : List ManiaObj) (a : Nat × Nat), (∀ o ∈ l, (if o.isCircle then 1 else o.incGrad) = o.incOne) →
+      l.foldl maniaAccStep a = (a.1 + (l.map (·.incOne)).sum, a.2 + (l.filter (fun o => !o.isCircle)).length) by
+    have := hs (objs.take k) (0, 0) (fun o ho => (h o (List.mem_of_mem_take ho)).1)
+    simpa using this
+  intro l
+  induction l with
+  | nil => intro a _; simp
+  | cons o t ih =>
+    intro a hl
+    simp only [List.foldl_cons]
+    rw [ih _ (fun o' ho' => hl o' (List.mem_cons_of_mem _ ho'))]
+    have ho := hl o (List.mem_cons_self)
+    unfold maniaAccStep
+    by_cases hcirc : o.isCircle = true
+    · simp only [hcirc, ↓reduceIte] at ho ⊢
+      simp [hcirc, ← ho]; omega
+    · simp only [hcirc] at ho ⊢
+      simp only [Bool.false_eq_true, ↓reduceIte] at ho ⊢
+      simp [hcirc, ← ho]; omega
+
+theorem maniaOneShot_eq_value (sk : Skills S) (objs : List ManiaObj) (i : Nat) (hi : i ≤ objs.length)
+    (h : ManiaIncAgree objs) : maniaOneShot sk objs i = maniaValue sk objs i := by
+  unfold maniaOneShot maniaValue
+  rw [maniaGradPrefix_eq_oneShot objs i h]
+  simp [List.length_take, Nat.min_eq_left hi]
+
+/-- **mania (partial)**: under `ManiaIncAgree` the first `n` calls of `next` return exactly the
+one-shot results for `passed_objects = 1, …, n`, then `None`; `len()` announces `n`. -/
+theorem mania_next_eq_prefix_partial (sk : Skills S) (objs : List ManiaObj) (h : ManiaIncAgree objs) :
+    ((maniaMachine sk objs).nexts (maniaNew sk objs) objs.length).1 =
+      (List.range objs.length).map (fun d => Res.some (maniaOneShot sk objs (d + 1))) ∧
+    ((maniaMachine sk objs).next ((maniaMachine sk objs).nexts (maniaNew sk objs) objs.length).2).1 = .none ∧
+    (maniaMachine sk objs).len (maniaNew sk objs) = some objs.length := by
+  obtain ⟨hv, hc⟩ := mania_nexts_spec sk objs objs.length (maniaNew sk objs) 0 (maniaNew_canon sk objs) (by omega)
+  refine ⟨?_, ?_, ?_⟩
+  · rw [hv]
+    apply List.map_congr_left
+    intro d hd
+    have hdlt : d < objs.length := by simpa using hd
+    simp only [Nat.zero_add]
+    rw [maniaOneShot_eq_value sk objs (d + 1) (by omega) h]
+  · simp only [Nat.zero_add] at hc
+    rw [maniaMachine_next_exhausted sk objs _ hc]
+  · have := maniaLen_spec sk objs _ 0 (maniaNew_canon sk objs)
+    simpa [maniaMachine] using this
+
+/-- **mania**: any limit at or above the object count gives the full calculation. -/
+theorem mania_last_eq_full (sk : Skills S) (objs : List ManiaObj) (take : Nat) (ht : objs.length ≤ take) :
+    maniaOneShot sk objs take = maniaOneShot sk objs objs.length := by
+  unfold maniaOneShot
+  simp [List.take_of_length_le ht, Nat.min_eq_right ht]
+
+/-- Non-vacuity of `ManiaIncAgree`. -/
+example : ManiaIncAgree [⟨true, 1, 1⟩, ⟨false, 4, 4⟩] := by
+  unfold ManiaIncAgree; decide
+
+/-- The code does not satisfy `ManiaIncAgree` in general, and then gradual ≠ one-shot: concrete
+witness (a hold note whose recomputed increment is one smaller). -/
+theorem mania_gradual_ne_oneshot_witness :
+    let objs : List ManiaObj := [⟨true, 1, 1⟩, ⟨false, 4, 3⟩]
+    ((maniaMachine unitSkills' objs).nexts (maniaNew unitSkills' objs) 2).1.getLast? ≠
+      some (Res.some (maniaOneShot unitSkills' objs 2)) := by
+  decide
+
+/-! ## osu!taiko — the statement is false of the code -/
+
+
+/-- First object is a hit, second is not: the second gradual value differs from
+`passed_objects(2)` (gradual reports combo 1 where one-shot has already counted the second
+hit and processed a difficulty object). -/
+theorem taiko_first_nonhit_fails :
+    let objs := [true, false, true, true]
+    ((taikoMachine unitSkills' objs).nexts (taikoNew unitSkills' objs) 2).1.getLast? ≠
+      some (Res.some (taikoOneShot unitSkills' objs 2)) := by
+  decide
+
+/-- Maps with two objects announce two values and produce none. -/
+theorem taiko_short_map_fails :
+    let objs := [true, true]
+    (taikoMachine unitSkills' objs).len (taikoNew unitSkills' objs) = some 2 ∧
+    ((taikoMachine unitSkills' objs).next (taikoNew unitSkills' objs)).1 = .none := by
+  decide
+
+/-- A trailing non-hit: the last gradual value is not the full calculation. -/
+theorem taiko_trailing_nonhit_fails :
+    let objs := [true, true, true, false]
+    ((taikoMachine unitSkills' objs).nexts (taikoNew unitSkills' objs) 3).1.getLast? ≠
+      some (Res.some (taikoOneShot unitSkills' objs 1000)) ∧
+    ((taikoMachine unitSkills' objs).nexts (taikoNew unitSkills' objs) 4).1.getLast? = some .none := by
+  decide
+
+/-- …while on a regular taiko map (first two objects hits, a hit last) the values do agree:
+sanity instance showing the model is not trivially inconsistent. -/
+example :
+    let objs := [true, true, false, true, true]
+    ((taikoMachine unitSkills' objs).nexts (taikoNew unitSkills' objs) 4).1 =
+      [1, 2, 3, 4].map (fun i => Res.some (taikoOneShot unitSkills' objs i)) ∧
+    (taikoOneShot unitSkills' objs 4) = (taikoOneShot unitSkills' objs 1000) := by
+  decide
+
 end Rosu.Gradual
